@@ -225,7 +225,7 @@ C12_Gauges ==
        \A g \in DOMAIN gauges :
           LET gg == gauges[g]  t == now' IN
           IF ~l.reward THEN Delta(g) = 0
-          ELSE IF t > gg.end \/ t < gg.start THEN Delta(g) = 0
+          ELSE IF t > gg.end \/ t < gg.start \/ gg.end <= gg.start THEN Delta(g) = 0   \* (a gauge without duration releases nothing)
           ELSE /\ Abs(rel'[g] - (dep[g] * (t - gg.start)) \div (gg.end - gg.start)) <= 1
                /\ rel'[g] <= dep[g]
   /\ (l.a # "block") => \A g \in DOMAIN gauges : Delta(g) >= 0
